@@ -52,7 +52,7 @@ def gen_cmds(rng, wf=True, maxlen=12):
 
 
 def run(ctx):
-    from bitcoinlib.encoding import int_to_varbyteint, varbyteint_to_int, varstr, read_varbyteint
+    from bitcoinlib.encoding import int_to_varbyteint, varbyteint_to_int, varstr, read_varbyteint, read_varbyteint_return
     from bitcoinlib.scripts import Script, ScriptError, encode_num, decode_num, data_pack
     from io import BytesIO
     rng = ctx.rng
@@ -90,6 +90,11 @@ def run(ctx):
         py = '%d %d' % (v, sz)
         if len(b) >= 9 and (v2 != v or s.tell() != sz):
             py += ' stream-reader-differs(%d,%d)' % (v2, s.tell())
+        if b:
+            s3 = BytesIO(b + b'\x00' * 9)
+            v3, raw3 = read_varbyteint_return(s3)
+            if v3 != v or s3.tell() != sz or raw3 != (b + b'\x00' * 9)[:sz]:
+                py += ' stream-reader-return-differs(%d,%d,%s)' % (v3, s3.tell(), raw3.hex())
         cases.append(('cs_dec %s' % hexp(b), py, True))
     ctx.compare(cases, 'boundary')
 
